@@ -29,6 +29,7 @@ SAMPLES = [
     "\x1b[31", "\x1b[31;", "\x1b[;m", "\x1b[1;;2m", "\x1b[ q", "\x1b[5 q", "\x1b[>0c", "\x1b[=1c", "\x1b[!p", "\x1b[31m\x1b[Zx",
     "\x1b[38;5m", "\x1b[38;2;1;2m", "\x1b[48;5m", "\x1b[1;48;2;10;20m", "\x1b[38m", "\x1b[38;5;m", "\x1b[38;5", "\x1b[48;2m", "\x1b[38;2;255;0;0;1m",
     "\x1b[38;5;1;38;5m", "a\x1b[38;5mb", "\x1b[0;38m", "\x1b[90m" + "x\x1b[31my\x1b[0m" * 20, "\x1b[10m" + "\x1b[1mA" * 40 + "\x1b[m", "\x1b[95mz" + "\x1b[2K" * 30,
+    "\x1b[" + "1" * 4300 + "m", "\x1b[" + "7" * 4301 + "mx", "a\x1b[1;" + "9" * 5000 + "Hb", "\x9b" + "3" * 4400 + "m", "\x1b[31m\x1b[" + "0" * 6000 + "1mz",
     "tab\there", "\r\n", "é\x1b[1mü", "Ｅ\x1b[31mＥ", "[1m", "a[31mb", "\x1b[31mx[1my\x1b[39m", "\x1b[4;3;1mhi", "\x1b[999m", "\x1b[21m", "\x1b[22m",
 ]
 
